@@ -26,6 +26,8 @@ type GenerateSettings struct {
 	typeUnmarshallers map[string]string
 	typeLengthers     map[string]string
 	customRecordTypes map[string]struct{}
+	// enumSizes maps enum type names to the byte width of their underlying type
+	enumSizes map[string]uint8
 
 	ImportGenerationMode
 	imported          []File
@@ -402,6 +404,10 @@ func (f File) Generate(inputWriter io.Writer, settings GenerateSettings) error {
 	settings.typeUnmarshallers = f.typeUnmarshallers(settings)
 	settings.typeLengthers = f.typeLengthers()
 	settings.customRecordTypes = f.customRecordTypes()
+	settings.enumSizes = make(map[string]uint8, len(f.Enums))
+	for _, en := range f.Enums {
+		settings.enumSizes[en.Name] = fixedSizeTypes[en.SimpleType]
+	}
 
 	usedTypes := f.usedTypes()
 	if settings.PackageName == "" && f.GoPackage != "" {
@@ -673,7 +679,11 @@ func writeFieldReadByter(name string, typ FieldType, w *iohelp.ErrorWriter, sett
 		if format, ok := settings.typeByteReaders[simpleTyp+hintSafeKey]; ok && safe {
 			writeLineWithTabs(w, format, depth, name, typ.goString(settings))
 		} else {
-			if sz, ok := fixedSizeTypes[simpleTyp]; ok && safe {
+			sz, ok := fixedSizeTypes[simpleTyp]
+			if !ok {
+				sz, ok = settings.enumSizes[simpleTyp]
+			}
+			if ok && safe {
 				writeLengthCheck(w, strconv.Itoa(int(sz)), depth, name)
 			}
 			writeLineWithTabs(w, settings.typeByteReaders[simpleTyp], depth, name, typ.goString(settings))
